@@ -28,7 +28,8 @@ the same operator, or the same panic), T4 (borrowed inputs and constants are nev
 `temp_values`, in-place operands come from `temp_values`), independence of pool / reference
 mode / owned-vs-borrowed split, independence of the plan order for graphs with unique
 producers (`c02_plan_independent`), and T1/T2/T4 for runs with any capture environment
-(`c02_caps_*`).  Not proved: T3 for runs with captures; thread count and prepacking (outside
+(`c02_caps_*`), and T3 for runs whose captures are all by reference
+(`c02_T3_refinement_caps_partial`).  Not proved: T3 with by-value (takeable) captures; thread count and prepacking (outside
 the model: operator kernels).
 -/
 namespace RtenVerif.Executor
@@ -43,9 +44,9 @@ theorem c02_reachable {V : Type} {ops : Ops V} {r : Run V} {pre rest outs : List
     (hrc : initRc r.g (pre ++ rest) outs = some rc)
     (hrun : (runSteps ops r { temps := initTemps r, rc := rc, caps := nocap } pre).1 = .ok st) :
     ∃ E, naiveSteps ops r nocap (fun _ => none) pre = .ok E ∧
-      Sim r (uses r.g (pre ++ rest) outs) rest outs st E := by
-  have hs := Sim.init hwf hrc
-  have := runSteps_refines_prefix hwf hcap hct rest pre _ _ hs
+      Sim r nocap (uses r.g (pre ++ rest) outs) rest outs st E := by
+  have hs := Sim.init nocap hwf hrc
+  have := runSteps_refines_prefix hwf (capsWF_nocap r hcap) hct rest pre _ _ hs
   rw [hrun] at this
   exact this
 
@@ -93,11 +94,13 @@ theorem c02_T2_no_use_after_take {V : Type} {ops : Ops V} {r : Run V} {pre rest 
 
 /-- Step form of T2: an id removed from `temp_values` by the take phase of a step (in place
 or by value) had count 1 and is a dependency of that step, so it has no later use. -/
-theorem c02_T2_taken_dead {V : Type} {ops : Ops V} {r : Run V} {total : Nat → Nat} {i : Nat}
+theorem c02_T2_taken_dead {V : Type} {ops : Ops V} {r : Run V} {caps0 : Nat → Option (V × Bool)}
+    {total : Nat → Nat} {i : Nat}
     {rest outs : List Nat} {st st' : St V} {E : Nat → Option V} {tr : StepTrace}
-    (hs : Sim r total (i :: rest) outs st E) (P : StepParts ops r st st' i tr) (x : Nat)
+    (hcw : CapsWF r caps0)
+    (hs : Sim r caps0 total (i :: rest) outs st E) (P : StepParts ops r st st' i tr) (x : Nat)
     (hx : P.st2.temps x ≠ st.temps x) : uses r.g rest outs x = 0 := by
-  have T := takeFacts P hs.nocaps
+  have T := takeFacts P (hs.noTake hcw)
   rcases T.htemps x with h | ⟨_, hr1, hmem, hne⟩
   · exact absurd h hx
   · cases ht : st.temps x with
@@ -125,14 +128,16 @@ theorem c02_T4_temps {V : Type} {ops : Ops V} {r : Run V} {pre rest outs : List 
 `temp_values`: it belongs to a value node that is neither a constant nor a borrowed input,
 had reference count 1, and sits at a declared in-place position (or the operator is
 commutative).  Feeds C25. -/
-theorem c02_T4_inplace_operands {V : Type} {ops : Ops V} {r : Run V} {total : Nat → Nat} {i : Nat}
+theorem c02_T4_inplace_operands {V : Type} {ops : Ops V} {r : Run V}
+    {caps0 : Nat → Option (V × Bool)} {total : Nat → Nat} {i : Nat}
     {rest outs : List Nat} {st st' : St V} {E : Nat → Option V} {tr : StepTrace}
-    (hs : Sim r total (i :: rest) outs st E) (P : StepParts ops r st st' i tr)
+    (hcw : CapsWF r caps0)
+    (hs : Sim r caps0 total (i :: rest) outs st E) (P : StepParts ops r st st' i tr)
     (p : Nat) (v : V) (hpv : (p, v) ∈ P.taken) :
     ∃ id, P.op.inputs[p]? = some (some id) ∧ st.temps id = some v ∧ st.rc id = 1 ∧
       isValue r.g id = true ∧ isConstant r.g id = false ∧ r.borrowed id = none ∧
       (p ∈ ops.inPlaceIdx i ∨ P.op.commutative = true) := by
-  obtain ⟨id, h1, h2, h3, h4⟩ := (takeFacts P hs.nocaps).htaken p v hpv
+  obtain ⟨id, h1, h2, h3, h4⟩ := (takeFacts P (hs.noTake hcw)).htaken p v hpv
   obtain ⟨h5, h6, _⟩ := hs.agree id v h4
   exact ⟨id, h1, h4, h3, h5, isValue_not_const h5, h6, h2⟩
 
@@ -177,6 +182,99 @@ theorem c02_T3_refinement {V : Type} {ops : Ops V} {r : Run V} {plan outs : List
     (hplan : ∀ i ∈ plan, (getOp r.g i).isSome = true) (hnd : outs.Nodup) :
     (runPlan ops r nocap plan outs).outcome = evalNaive ops r nocap plan outs :=
   runPlan_refines hwf hcap hct hplan hnd
+
+/-- **T3 for runs with a capture environment — partial.**  `run_plan` executed as the body of
+an `If`/`Loop` with the capture environment `caps0` returns what the naive evaluation returns
+when capture placeholders (`Graph::captures()`: value nodes without producer, not supplied as
+inputs) are read from `caps0` — i.e. from the enclosing scope, which is how
+`Model/ControlFlow.lean` (C24) gives meaning to a body: its `evalG` looks a captured name up
+in the environment of the enclosing graph, exactly the `caps0` lookup of `naiveLook` here.
+Proved for every capture environment in which **nothing is takeable by value**
+(`CapsWF.notake`: all captures by reference — the situation whenever the enclosing run still
+needs the captured values, and always for `Loop` bodies after the first iteration's
+environment is shared).  For takeable (by-value) captures the value-level statement is not
+proved; what is proved for them is `c02_caps_T2` (a capture is taken only when it has no
+remaining use) and `c02_caps_invariants`, and the trace/differential correspondence covers
+them (340+ by-value captures per quick run). -/
+theorem c02_T3_refinement_caps_partial {V : Type} {ops : Ops V} {r : Run V}
+    {caps0 : Nat → Option (V × Bool)} {plan outs : List Nat} (hwf : WF r) (hcw : CapsWF r caps0)
+    (hct : Contract ops r.g) (hplan : ∀ i ∈ plan, (getOp r.g i).isSome = true) (hnd : outs.Nodup) :
+    (runPlan ops r caps0 plan outs).outcome = evalNaive ops r caps0 plan outs :=
+  runPlan_refines_caps hwf hcw hct hplan hnd
+
+/-! ### Non-vacuity of the capture theorem, and a by-value instance -/
+
+/-- A body graph: `0` is a capture placeholder, `2: v1 = U(v0)` can run in place. -/
+def capG : Graph :=
+  { nodes := [.value, .value, .operator { inputs := [some 0], outputs := [some 1], inPlace := true }]
+    captures := [0] }
+
+def capOps : Ops Nat :=
+  { len := fun v => v, inPlaceIdx := fun i => if i = 2 then [0] else [], isSubgraph := fun _ => false
+    run := fun i _ _ => some [i], runInPlace := fun i _ _ => some [i] }
+
+def capRun : Run Nat :=
+  { g := capG, consts := fun _ => 0, borrowed := fun _ => none, owned := fun _ => none }
+
+/-- The enclosing scope's value for the placeholder, by reference or by value. -/
+def capEnv (takeable : Bool) : Nat → Option (Nat × Bool) :=
+  fun v => if v = 0 then some (8, takeable) else none
+
+theorem capRun_wf : WF capRun := by
+  refine ⟨rfl, fun v hv => absurd rfl hv, fun v hv => absurd rfl hv, ?_⟩
+  intro i op hop o ho
+  have hi : i < 3 := by
+    unfold getOp getNode at hop
+    by_cases hi : i < 3
+    · exact hi
+    · have : capRun.g.nodes[i]? = none := by
+        apply List.getElem?_eq_none; simp [capRun, capG]; omega
+      rw [this] at hop; simp at hop
+  have : i = 0 ∨ i = 1 ∨ i = 2 := by omega
+  rcases this with rfl | rfl | rfl <;>
+    simp [getOp, getNode, capRun, capG] at hop <;> subst hop <;>
+    simp [opOutputs] at ho <;> subst ho <;> rfl
+
+theorem capEnv_wf : CapsWF capRun (capEnv false) := by
+  refine ⟨?_, ?_, ?_⟩
+  · intro v hv
+    by_cases h : v = 0
+    · subst h; rfl
+    · simp [capEnv, h] at hv
+  · intro v hv
+    have hv0 : v = 0 := by simpa [capRun, capG] using hv
+    subst hv0
+    refine ⟨rfl, rfl, ?_⟩
+    intro i op hop
+    have hi : i < 3 := by
+      unfold getOp getNode at hop
+      by_cases hi : i < 3
+      · exact hi
+      · have : capRun.g.nodes[i]? = none := by
+          apply List.getElem?_eq_none; simp [capRun, capG]; omega
+        rw [this] at hop; simp at hop
+    have : i = 0 ∨ i = 1 ∨ i = 2 := by omega
+    rcases this with rfl | rfl | rfl <;>
+      simp [getOp, getNode, capRun, capG] at hop <;> subst hop <;> simp [opOutputs]
+  · intro v x b hv
+    by_cases h : v = 0
+    · simp [capEnv, h] at hv; exact hv.2
+    · simp [capEnv, h] at hv
+
+/-- Instance of `c02_T3_refinement_caps_partial` (by-reference capture: read, never taken). -/
+example : (runPlan capOps capRun (capEnv false) [2] [1]).outcome =
+    evalNaive capOps capRun (capEnv false) [2] [1] :=
+  c02_T3_refinement_caps_partial capRun_wf capEnv_wf
+    ⟨fun i => by simp only [capOps]; split <;> simp, fun _ _ => rfl, fun _ _ _ _ _ _ _ _ _ => rfl⟩
+    (by decide) (by decide)
+
+/-- The same body with the capture passed **by value** (a test by `decide`, not covered by the
+theorem): the executor takes the capture in place (`taken = [(0, 0)]`) and still returns what
+the naive evaluation returns. -/
+example : (runPlan capOps capRun (capEnv true) [2] [1]).steps.map (fun t => (t.rip, t.taken)) =
+      [(true, [(0, 0)])] ∧
+    (runPlan capOps capRun (capEnv true) [2] [1]).outcome =
+      evalNaive capOps capRun (capEnv true) [2] [1] := by decide
 
 /-- The naive evaluation does not distinguish owned from borrowed inputs and ignores the
 pool and reference-mode switches. -/
